@@ -56,6 +56,13 @@ func session(decls, entry string) (o sessObs) {
 		o.End, o.Err = "error", "closure definition: "+err.Error()
 		return
 	}
+	// recover() called by an ordinary function returns nil, also in an evaluation that follows one
+	// whose panic reached the host as an error (GoCore.tla: a recover statement outside a deferred
+	// call, ctx.direct = FALSE, prints norec)
+	if _, err := i.Eval("func norec() bool { return recover() == nil }"); err != nil {
+		o.End, o.Err = "error", "norec definition: "+err.Error()
+		return
+	}
 	var hostKeep func() int
 	if v, err := i.Eval("keep"); err == nil {
 		hostKeep, _ = v.Interface().(func() int)
@@ -85,6 +92,10 @@ func session(decls, entry string) (o sessObs) {
 	o.Stdout = out.String()
 	// the interpreter must remain usable, and what was defined before must still work
 	o.After = "ok"
+	if v, err := i.Eval("norec()"); err != nil || !v.IsValid() || !v.Bool() {
+		o.After = fmt.Sprintf("recover() in an ordinary call of a later evaluation is not nil: %v, %v", v, err)
+		return
+	}
 	if v, err := i.Eval("keep()"); err != nil || !v.IsValid() || v.Int() != 41 {
 		o.After = fmt.Sprintf("the closure kept in a variable gave %v, %v (want 41)", v, err)
 		return
